@@ -36,7 +36,7 @@ theorem hasDup_false {α : Type} [BEq α] [LawfulBEq α] : ∀ {l : List α}, ha
       refine List.nodup_cons.mpr ⟨?_, hasDup_false h.2⟩
       intro hm
       have := h.1
-      simp [List.contains_iff_mem, hm] at this
+      simp [hm] at this
 
 theorem dictGet?_none {κ ν : Type} [BEq κ] [LawfulBEq κ] : ∀ (d : List (κ × ν)) (k : κ), k ∉ d.map (·.1) → dictGet? d k = none
   | [], _, _ => rfl
@@ -974,5 +974,486 @@ theorem agree_fixed {impl : Impl} {s : Spec} {enums seen : List Str} {env : Env}
     · simp [evalField, hev, toDef, hn, orEmpty, hd, hq, hevl]
     · simp [evalHint, hhint]
     · simp [denoteResolved, hdoc, hn, ha, hd, hdv]
+
+/-! ### every well-formed field -/
+theorem field_ok {impl : Impl} {s : Spec} {seen : List Str} {env : Env} {f0 : FieldEl}
+    (henv : EnvOk impl (s.enums.map (·.name)) seen env)
+    (hseen : ∀ n ∈ seen, ∃ r, findRecord? s n = some r)
+    (hw : wfField s seen f0 = true) :
+    ∃ decl fs, genField (specDefinitions s) (toDef (resolvedF s f0)) = .ok decl ∧ decl.syntaxOk = true
+      ∧ evalField env decl = .ok fs ∧ evalHint env decl = .ok () ∧ denoteField s f0 = .ok fs := by
+  unfold wfField at hw
+  simp only [Bool.and_eq_true] at hw
+  obtain ⟨_, hw⟩ := hw
+  cases hr : resolveDef s f0 with
+  | error e => rw [hr] at hw; cases hw
+  | ok f =>
+    rw [hr] at hw
+    simp only [Bool.and_eq_true] at hw
+    obtain ⟨⟨⟨hname, href⟩, harr⟩, hty⟩ := hw
+    have hres : resolvedF s f0 = f := by simp [resolvedF, hr]
+    have hden : denoteField s f0 = denoteResolved s f := by simp [denoteField, hr]
+    rw [hres, hden]
+    have href' : f.ref = none := by simpa using href
+    cases hn : f.name with
+    | none => rw [hn] at hname; cases hname
+    | some n =>
+      rw [hn] at hname
+      simp only at hname
+      cases hwt : wfType s seen f with
+      | none => rw [hwt] at hty; cases hty
+      | some dom =>
+        rw [hwt] at hty
+        simp only at hty
+        have sh := wfType_shape hwt
+        cases sh with
+        | prim p k ht hsc =>
+          refine agree_nonfixed (tn := p.cls) (hint := p.kind.hint) (el := .prim p) henv hn hname href' harr hty
+            (by simp [ht]) ?_ ?_ (evalTy_cls_prim henv p) (Or.inl ⟨p, rfl⟩) (prim_cls_ident p) (hint_ident _)
+            ⟨_, henv.hint _⟩ ?_ ?_
+          · simp only [typeAndHint, toDef, href', ht, prim_not_enum, prim_not_record, Bool.false_eq_true, if_false,
+              typeDef_prim]
+            rfl
+          · rw [ht, prim_not_fixed, prim_not_fixed]; rfl
+          · simp [docElemTy, ht, hsc, docPrim_id]
+          · intro k ch hk
+            simp only [Option.some.injEq, Prod.mk.injEq] at hk
+            rw [← hk.1]; exact quote_prim p
+        | fixed iso k len m ht hsc hnp hdf hl hm ha =>
+          exact agree_fixed henv hn hname href' hty ht hsc hnp hdf hl hm ha
+        | enum nm e p ht hsc hid he hp =>
+          have hpre : isPrefix kwEnum (kwEnum ++ nm) = true := isPrefix_append _ _
+          have hrem : removeAll kwEnum (kwEnum ++ nm) = nm :=
+            removeAll_prefix kwEnum nm 58 (by rw [kwEnum_eq]; decide) (isIdent_no_colon hid)
+          refine agree_nonfixed (tn := p.cls) (hint := nm) (el := .prim p) henv hn hname href' harr hty
+            (by simp [ht]) ?_ ?_ (evalTy_cls_prim henv p) (Or.inl ⟨p, rfl⟩) (prim_cls_ident p) hid
+            (henv.enums nm (findEnum?_mem he)) ?_ ?_
+          · simp only [typeAndHint, toDef, href', ht, hpre, if_true, hrem, dictGet?_enums, he, hp, typeDef_prim]
+            rfl
+          · have hh : (kwEnum ++ nm).head? = some 101 := by rw [kwEnum_eq]; rfl
+            rw [ht, kw_not_fixed hh (by decide), kw_not_fixed hh (by decide)]; rfl
+          · simp [docElemTy, ht, hsc, he, hp, docPrim_id]
+          · intro k ch hk
+            simp only [Option.some.injEq, Prod.mk.injEq] at hk
+            rw [← hk.1]; exact quote_prim p
+        | record nm ht hsc hid hs =>
+          have hpre0 : isPrefix kwEnum (kwRecord ++ nm) = false := by rw [kwEnum_eq, kwRecord_eq]; simp [isPrefix]
+          have hpre : isPrefix kwRecord (kwRecord ++ nm) = true := isPrefix_append _ _
+          have hrem : removeAll kwRecord (kwRecord ++ nm) = nm :=
+            removeAll_prefix kwRecord nm 58 (by rw [kwRecord_eq]; decide) (isIdent_no_colon hid)
+          obtain ⟨r, hr'⟩ := hseen nm hs
+          have hrn := findRecord?_name hr'
+          have hget := henv.recs nm hs
+          refine agree_nonfixed (tn := nm) (hint := nm) (el := .record nm) henv hn hname href' harr hty
+            (by simp [ht]) ?_ ?_ (by simp [evalTy, hget]) (Or.inr ⟨nm, rfl⟩) hid hid ⟨_, hget⟩ ?_ ?_
+          · simp only [typeAndHint, toDef, href', ht, hpre0, hpre, Bool.false_eq_true, if_false, if_true, hrem,
+              dictGet?_records, hr', Option.map_some, recDef, hrn]
+          · have hh : (kwRecord ++ nm).head? = some 114 := by rw [kwRecord_eq]; rfl
+            rw [ht, kw_not_fixed hh (by decide), kw_not_fixed hh (by decide)]; rfl
+          · have : (cp "record" == cp "enum") = false := by decide
+            simp [docElemTy, ht, hsc, this, hr', hrn]
+          · intro k ch hk; cases hk
+
+/-! ### class bodies -/
+theorem mapE_map_ok {α β γ : Type} (d : α → β) (f : β → Except Err γ) (g : α → γ) (l : List α)
+    (h : ∀ a ∈ l, f (d a) = .ok (g a)) : mapE f (l.map d) = .ok (l.map g) := by
+  induction l with
+  | nil => rfl
+  | cons a as ih =>
+    have h1 := h a (List.mem_cons_self ..)
+    have h2 := ih (fun x hx => h x (List.mem_cons_of_mem _ hx))
+    simp only [List.map_cons, mapE, h1, h2, ok_bind, pure_eq_ok]
+
+theorem EnvOk.mono {impl : Impl} {enums recs enums' recs' : List Str} {env : Env} (h : EnvOk impl enums recs env)
+    (he : ∀ n ∈ enums', n ∈ enums) (hr : ∀ n ∈ recs', n ∈ recs) : EnvOk impl enums' recs' env :=
+  ⟨h.init, fun n hn => h.enums n (he n hn), fun n hn => h.recs n (hr n hn)⟩
+
+/-- the declaration the generator emits for a field -/
+def fieldDecl (s : Spec) (f0 : FieldEl) : FieldDecl := getOk (genField (specDefinitions s)) (toDef (resolvedF s f0))
+/-- the denotation of a field -/
+def fieldSem (s : Spec) (f0 : FieldEl) : FieldS := getOk (denoteField s) f0
+
+theorem body_ok {impl : Impl} {s : Spec} {seen : List Str} {env : Env} {fs : List FieldEl}
+    (henv : EnvOk impl (s.enums.map (·.name)) seen env)
+    (hseen : ∀ n ∈ seen, ∃ r, findRecord? s n = some r)
+    (hw : fs.all (wfField s seen) = true) :
+    mapE (genField (specDefinitions s)) (fs.map fun f => toDef (resolvedF s f)) = .ok (fs.map (fieldDecl s))
+    ∧ (fs.map (fieldDecl s)).all FieldDecl.syntaxOk = true
+    ∧ evalBody env (fs.map (fieldDecl s)) = .ok (fs.map (fieldSem s))
+    ∧ mapE (denoteField s) fs = .ok (fs.map (fieldSem s)) := by
+  have key : ∀ f0 ∈ fs, genField (specDefinitions s) (toDef (resolvedF s f0)) = .ok (fieldDecl s f0)
+      ∧ (fieldDecl s f0).syntaxOk = true ∧ evalField env (fieldDecl s f0) = .ok (fieldSem s f0)
+      ∧ evalHint env (fieldDecl s f0) = .ok () ∧ denoteField s f0 = .ok (fieldSem s f0) := by
+    intro f0 hf0
+    obtain ⟨decl, sem, h1, h2, h3, h4, h5⟩ := field_ok henv hseen (List.all_eq_true.mp hw f0 hf0)
+    have e1 : fieldDecl s f0 = decl := getOk_eq h1
+    have e2 : fieldSem s f0 = sem := getOk_eq h5
+    rw [e1, e2]
+    exact ⟨h1, h2, h3, h4, h5⟩
+  refine ⟨?_, ?_, ?_, ?_⟩
+  · exact mapE_map_ok _ _ _ fs (fun a ha => (key a ha).1)
+  · rw [List.all_eq_true]
+    intro d hd
+    obtain ⟨f0, hf0, rfl⟩ := List.mem_map.mp hd
+    exact (key f0 hf0).2.1
+  · have h1 : mapE (evalField env) (fs.map (fieldDecl s)) = .ok (fs.map (fieldSem s)) :=
+      mapE_map_ok _ _ _ fs (fun a ha => (key a ha).2.2.1)
+    have h2 : mapE (evalHint env) (fs.map (fieldDecl s)) = .ok (fs.map fun _ => ()) :=
+      mapE_map_ok _ _ _ fs (fun a ha => (key a ha).2.2.2.1)
+    simp only [evalBody, h1, h2, ok_bind, pure_eq_ok]
+  · exact mapE_ok _ _ fs (fun a ha => (key a ha).2.2.2.2)
+
+/-! ### enums -/
+theorem docValue_ok {k : PrimKind} {ch : Bool} {v : Str} (h : wfConst k ch v = true) : ∃ d, docValue k v = .ok d := by
+  cases k with
+  | bool => simp [wfConst] at h
+  | text => exact ⟨_, rfl⟩
+  | int =>
+    simp only [wfConst] at h
+    have : ∃ i, parseInt? v = some i := by
+      unfold isIntLit at h
+      unfold parseInt?
+      split at h
+      · simp [parseNat?, h]
+      · simp [parseNat?, h]
+    obtain ⟨i, hi⟩ := this
+    exact ⟨.int i, by simp [docValue, hi]⟩
+
+theorem wfMemberName_ident {n : Str} (h : wfMemberName n = true) : isIdent n = true := by
+  simp only [wfMemberName, Bool.and_eq_true] at h
+  exact h.1.1
+
+theorem enum_ok {e : EnumEl} (hw : wfEnum e = true) (hid : isIdent e.name = true) :
+    ∃ decl sem, genEnum e = .ok decl ∧ decl.name = e.name ∧ sem.name = e.name
+      ∧ (isIdent decl.name && !decl.members.isEmpty && decl.members.all fun kv => isIdent kv.1 && kv.2.syntaxOk) = true
+      ∧ (∀ env : Env, env.get (cp "Enum") = .ok .enumBase → evalEnum env decl = .ok sem)
+      ∧ denoteEnum e = .ok sem := by
+  unfold wfEnum at hw
+  cases hp : e.ty.bind docPrim with
+  | none => rw [hp] at hw; cases hw
+  | some p =>
+    rw [hp] at hw
+    simp only [Bool.and_eq_true, List.all_eq_true, Bool.not_eq_true'] at hw
+    obtain ⟨⟨⟨_, hne⟩, hvals⟩, hdup⟩ := hw
+    have hty := bind_docPrim hp
+    have hgen : genEnum e = .ok ⟨e.name, e.values.map fun v => (v.name, ⟨p.kind == .text, htmlEscape v.value⟩)⟩ := by
+      simp only [genEnum, hty, typeDef_prim, ok_bind, pure_eq_ok, TypeEntry.hint, hint_str]
+    let val := fun (v : EnumVal) => (v.name, getOk (docValue p.kind) v.value)
+    have hmem : ∀ v ∈ e.values, (⟨p.kind == .text, htmlEscape v.value⟩ : Lit).syntaxOk = true
+        ∧ (⟨p.kind == .text, htmlEscape v.value⟩ : Lit).eval = .ok (getOk (docValue p.kind) v.value)
+        ∧ docValue p.kind v.value = .ok (getOk (docValue p.kind) v.value) := by
+      intro v hv
+      have hc := (hvals v hv).2
+      obtain ⟨h1, h2⟩ := lit_const hc
+      obtain ⟨d, hd⟩ := docValue_ok hc
+      rw [getOk_eq hd, h2]
+      exact ⟨h1, hd, hd⟩
+    refine ⟨_, ⟨e.name, e.values.map val⟩, hgen, rfl, rfl, ?_, ?_, ?_⟩
+    · simp only [Bool.and_eq_true, hid, true_and, List.all_eq_true, Bool.not_eq_true', List.isEmpty_map]
+      refine ⟨hne, ?_⟩
+      intro kv hkv
+      obtain ⟨v, hv, rfl⟩ := List.mem_map.mp hkv
+      exact ⟨wfMemberName_ident (hvals v hv).1, (hmem v hv).1⟩
+    · intro env henv
+      have hm : mapE (fun (kv : Str × Lit) => do
+            let v ← kv.2.eval
+            pure (kv.1, v)) (e.values.map fun v => (v.name, (⟨p.kind == .text, htmlEscape v.value⟩ : Lit)))
+          = .ok (e.values.map val) := by
+        apply mapE_map_ok
+        intro v hv
+        simp only [(hmem v hv).2.1, ok_bind, pure_eq_ok, val]
+      have hd : hasDup ((e.values.map fun v => (v.name, (⟨p.kind == .text, htmlEscape v.value⟩ : Lit))).map (·.1)) = false := by
+        simpa [List.map_map, Function.comp_def] using hdup
+      unfold evalEnum
+      rw [henv]
+      simp only [ok_bind]
+      rw [hm]
+      simp only [ok_bind, hd, Bool.false_eq_true, if_false, pure_eq_ok]
+    · have hm : mapE (fun (v : EnumVal) => do
+            let d ← docValue p.kind v.value
+            pure (v.name, d)) e.values = .ok (e.values.map val) := by
+        apply mapE_ok
+        intro v hv
+        simp only [(hmem v hv).2.2, ok_bind, pure_eq_ok, val]
+      unfold denoteEnum
+      rw [hp]
+      simp only []
+      rw [hm]
+      rfl
+
+/-! ### the three groups of classes -/
+def enumDecl (e : EnumEl) : EnumDecl := getOk genEnum e
+def enumSem (e : EnumEl) : EnumS := getOk denoteEnum e
+
+theorem WF.enumName {impl : Impl} {s : Spec} (h : WF impl s) {e : EnumEl} (he : e ∈ s.enums) :
+    isIdent e.name = true ∧ e.name ∉ reservedNames impl :=
+  h.names e.name (by unfold classNames; simp only [List.mem_append, List.mem_map]; exact Or.inl (Or.inl ⟨e, he, rfl⟩))
+
+theorem WF.recName {impl : Impl} {s : Spec} (h : WF impl s) {r : RecordEl} (hr : r ∈ s.records) :
+    isIdent r.name = true ∧ r.name ∉ reservedNames impl :=
+  h.names r.name (by unfold classNames; simp only [List.mem_append, List.mem_map]; exact Or.inl (Or.inr ⟨r, hr, rfl⟩))
+
+theorem WF.msgName {impl : Impl} {s : Spec} (h : WF impl s) {g : MessageEl} (hg : g ∈ s.messages) :
+    isIdent g.name = true ∧ g.name ∉ reservedNames impl ∧ g.name ∉ s.records.map (·.name) := by
+  have hm : g.name ∈ s.messages.map (·.name) := List.mem_map.mpr ⟨g, hg, rfl⟩
+  have h1 := h.names g.name (by unfold classNames; simp only [List.mem_append]; exact Or.inr hm)
+  refine ⟨h1.1, h1.2, ?_⟩
+  intro hr
+  have hnd := h.nodup
+  unfold classNames at hnd
+  have := (List.nodup_append.mp hnd).2.2
+  exact this g.name (List.mem_append.mpr (Or.inr hr)) g.name hm rfl
+
+theorem enum_facts {impl : Impl} {s : Spec} (h : WF impl s) {e : EnumEl} (he : e ∈ s.enums) :
+    genEnum e = .ok (enumDecl e) ∧ (enumDecl e).name = e.name ∧ (enumSem e).name = e.name
+    ∧ (isIdent (enumDecl e).name && !(enumDecl e).members.isEmpty
+        && (enumDecl e).members.all fun kv => isIdent kv.1 && kv.2.syntaxOk) = true
+    ∧ (∀ env : Env, env.get (cp "Enum") = .ok .enumBase → evalEnum env (enumDecl e) = .ok (enumSem e))
+    ∧ denoteEnum e = .ok (enumSem e) := by
+  obtain ⟨decl, sem, h1, h2, h3, h4, h5, h6⟩ := enum_ok (h.enums e he) (h.enumName he).1
+  have e1 : enumDecl e = decl := getOk_eq h1
+  have e2 : enumSem e = sem := getOk_eq h6
+  rw [e1, e2]
+  exact ⟨h1, h2, h3, h4, h5, h6⟩
+
+theorem enums_ok {impl : Impl} {s : Spec} (h : WF impl s) :
+    ∀ (es : List EnumEl) (seenE : List Str) (env : Env), (∀ e ∈ es, e ∈ s.enums) → EnvOk impl seenE [] env →
+      ∃ env', evalEnums env (es.map enumDecl) = .ok (env', es.map enumSem)
+        ∧ EnvOk impl (es.reverse.map (·.name) ++ seenE) [] env'
+  | [], seenE, env, _, henv => ⟨env, rfl, by simpa using henv⟩
+  | e :: es, seenE, env, hsub, henv => by
+      have he := hsub e (List.mem_cons_self ..)
+      obtain ⟨_, hn, _, _, hev, _⟩ := enum_facts h he
+      have hpush := henv.pushEnum (k := e.name) (h.enumName he).2 (by simp)
+      obtain ⟨env', h1, h2⟩ := enums_ok h es (e.name :: seenE) _ (fun x hx => hsub x (List.mem_cons_of_mem _ hx)) hpush
+      refine ⟨env', ?_, by simpa [List.map_append] using h2⟩
+      simp only [List.map_cons, evalEnums, hev env henv.enum, ok_bind, hn, h1, pure_eq_ok]
+
+def recDecl (s : Spec) (r : RecordEl) : RecordDecl := ⟨r.name, cp "Record", r.fields.map (fieldDecl s)⟩
+def recSem (s : Spec) (r : RecordEl) : RecordS := ⟨r.name, r.fields.map (fieldSem s)⟩
+
+theorem findRecord?_of_mem {s : Spec} {r : RecordEl} (hr : r ∈ s.records) : ∃ r', findRecord? s r.name = some r' := by
+  unfold findRecord?
+  have : (s.records.find? fun x => x.name == r.name).isSome = true := by
+    rw [List.find?_isSome]
+    exact ⟨r, hr, by simp⟩
+  exact Option.isSome_iff_exists.mp this
+
+theorem records_ok {impl : Impl} {s : Spec} (h : WF impl s) :
+    ∀ (rs : List RecordEl) (seen : List Str) (env : Env),
+      (∀ r ∈ rs, r ∈ s.records) → (∀ n ∈ seen, ∃ r, findRecord? s n = some r) →
+      EnvOk impl (s.enums.map (·.name)) seen env → wfRecords s seen rs = true →
+      ∃ env', evalRecords env (rs.map (recDecl s)) = .ok (env', rs.map (recSem s))
+        ∧ EnvOk impl (s.enums.map (·.name)) (rs.reverse.map (·.name) ++ seen) env'
+        ∧ (∀ r ∈ rs, genRecord (specDefinitions s) (recDef s r) = .ok (recDecl s r)
+            ∧ (isIdent r.name && isIdent (cp "Record") && (recDecl s r).fields.all FieldDecl.syntaxOk) = true
+            ∧ (do let fs ← mapE (denoteField s) r.fields
+                  pure (⟨r.name, fs⟩ : RecordS)) = .ok (recSem s r))
+  | [], seen, env, _, _, henv, _ => ⟨env, rfl, by simpa using henv, fun _ hr => by cases hr⟩
+  | r :: rs, seen, env, hsub, hseen, henv, hw => by
+      have hr := hsub r (List.mem_cons_self ..)
+      simp only [wfRecords, Bool.and_eq_true] at hw
+      obtain ⟨hwf, hwrest⟩ := hw
+      simp only [wfFields, Bool.and_eq_true] at hwf
+      obtain ⟨b1, b2, b3, b4⟩ := body_ok henv hseen hwf.1.2
+      have hpush := henv.pushRecord (k := r.name) (h.recName hr).2
+      have hseen' : ∀ n ∈ r.name :: seen, ∃ r', findRecord? s n = some r' := by
+        intro n hn
+        rcases List.mem_cons.mp hn with rfl | hn
+        · exact findRecord?_of_mem hr
+        · exact hseen n hn
+      obtain ⟨env', h1, h2, h3⟩ := records_ok h rs (r.name :: seen) _ (fun x hx => hsub x (List.mem_cons_of_mem _ hx))
+        hseen' hpush hwrest
+      have hevr : evalRecord env (recDecl s r) = .ok (recSem s r) := by
+        simp only [evalRecord, recDecl, henv.record, ok_bind, b3, pure_eq_ok, recSem]
+      refine ⟨env', ?_, by simpa [List.map_append] using h2, ?_⟩
+      · have hnm : (recDecl s r).name = r.name := rfl
+        simp only [List.map_cons, evalRecords, hevr, ok_bind, hnm, h1, pure_eq_ok]
+      · intro r' hr'
+        rcases List.mem_cons.mp hr' with rfl | hr'
+        · refine ⟨?_, ?_, ?_⟩
+          · simp only [genRecord, recDef, b1, ok_bind, pure_eq_ok, recDecl]
+          · simp only [recDecl, (h.recName hr).1, b2, Bool.and_true]; decide
+          · simp only [b4, ok_bind, pure_eq_ok, recSem]
+        · exact h3 r' hr'
+
+/-! ### messages -/
+def msgDecl (s : Spec) (g : MessageEl) : MsgDecl :=
+  ⟨g.name, msgIdText g, htmlEscape (orEmpty g.direction), g.fields.map (fieldDecl s)⟩
+
+def msgSem (impl : Impl) (s : Spec) (g : MessageEl) : MsgS :=
+  ⟨g.name, msgIdVal g, if impl = .itch then none else some (orEmpty g.direction), g.fields.map (fieldSem s)⟩
+
+theorem direction_facts {d : Option Str} (h : (d == some (cp "incoming") || d == some (cp "outgoing")) = true) :
+    htmlEscape (orEmpty d) = orEmpty d ∧ quotedOk (orEmpty d) = true ∧ d = some (orEmpty d) := by
+  simp only [Bool.or_eq_true, beq_iff_eq] at h
+  rcases h with rfl | rfl <;> exact ⟨by decide, by decide, rfl⟩
+
+theorem message_facts {s : Spec} {g : MessageEl} (hw : wfMessage s g = true) :
+    isNatLit (msgIdText g) = true ∧ digitsVal (msgIdText g) = msgIdVal g ∧ denoteMsgId g.msgId = .ok (msgIdVal g) := by
+  obtain ⟨n, hid, _⟩ := wfMessage_id hw
+  obtain ⟨i, hi, h1, h2⟩ := convertMsgId_wf hid
+  simp only [msgIdText, hi, msgIdVal, hid]
+  exact ⟨h1, h2, trivial⟩
+
+theorem messages_ok {impl : Impl} {s : Spec} (h : WF impl s) :
+    ∀ (gs : List MessageEl) (reg : List (Nat × Str)) (env : Env),
+      (∀ g ∈ gs, g ∈ s.messages) →
+      EnvOk impl (s.enums.map (·.name)) (s.records.map (·.name)) env →
+      regOk impl reg (gs.map fun g => (msgIdVal g, orEmpty g.direction)) = true →
+      evalMessages impl env reg (gs.map (msgDecl s)) = .ok (gs.map (msgSem impl s))
+      ∧ (∀ g ∈ gs, genMessage (specDefinitions s) (msgDef s g) = .ok (msgDecl s g)
+            ∧ (isIdent g.name && isNatLit (msgDecl s g).indicator && quotedOk (msgDecl s g).direction
+                && (msgDecl s g).fields.all FieldDecl.syntaxOk) = true
+            ∧ denoteMessage impl s g = .ok (msgSem impl s g))
+  | [], _, _, _, _, _ => ⟨rfl, fun _ hg => by cases hg⟩
+  | g :: gs, reg, env, hsub, henv, hreg => by
+      have hg := hsub g (List.mem_cons_self ..)
+      have hw := h.msgs g hg
+      obtain ⟨m1, m2, m3⟩ := message_facts hw
+      have hw' := hw
+      simp only [wfMessage, Bool.and_eq_true, wfFields] at hw'
+      obtain ⟨⟨_, hdir⟩, ⟨_, hfields⟩, _⟩ := hw'
+      obtain ⟨d1, d2, d3⟩ := direction_facts hdir
+      have hseen : ∀ n ∈ s.records.map (·.name), ∃ r, findRecord? s n = some r := by
+        intro n hn
+        obtain ⟨r, hr, rfl⟩ := List.mem_map.mp hn
+        exact findRecord?_of_mem hr
+      obtain ⟨b1, b2, b3, b4⟩ := body_ok henv hseen hfields
+      simp only [List.map_cons, regOk, Bool.and_eq_true, Bool.not_eq_true'] at hreg
+      obtain ⟨hfresh, hregrest⟩ := hreg
+      obtain ⟨_, hnr, hnrec⟩ := h.msgName hg
+      have hpush := henv.pushMsg (k := g.name) hnr hnrec
+      obtain ⟨h1, h2⟩ := messages_ok h gs ((msgIdVal g, orEmpty g.direction) :: reg) _
+        (fun x hx => hsub x (List.mem_cons_of_mem _ hx)) hpush hregrest
+      have hevm : evalMessage impl env reg (msgDecl s g) = .ok (msgSem impl s g) := by
+        simp only [evalMessage, msgDecl, henv.message, henv.record, ok_bind, b3, m2, d1, hfresh, Bool.false_eq_true,
+          if_false, pure_eq_ok, msgSem]
+      refine ⟨?_, ?_⟩
+      · have hnm : (msgDecl s g).name = g.name := rfl
+        have hdr : (msgDecl s g).direction = orEmpty g.direction := d1
+        have hidv : (msgSem impl s g).id = msgIdVal g := rfl
+        simp only [List.map_cons, evalMessages, hevm, ok_bind, hnm, hdr, hidv, h1, pure_eq_ok]
+      · intro g' hg'
+        rcases List.mem_cons.mp hg' with rfl | hg'
+        · refine ⟨?_, ?_, ?_⟩
+          · simp only [genMessage, msgDef, b1, ok_bind, pure_eq_ok, msgDecl]
+          · have := (h.msgName hg).1
+            simp only [msgDecl, this, m1, d1, d2, b2, Bool.and_true]
+          · have hdd : denoteDir impl g'.direction = .ok (if impl = .itch then none else some (orEmpty g'.direction)) := by
+              rw [d3]
+              cases impl <;> simp [denoteDir, orEmpty]
+            simp only [denoteMessage, m3, ok_bind, b4, hdd, pure_eq_ok, msgSem]
+        · exact h2 g' hg'
+
+/-! ### the whole module -/
+/-- the module the generator writes for a well-formed specification -/
+def specModule (impl : Impl) (app : Str) (s : Spec) : Module where
+  impl := impl
+  appName := app
+  exports := [cp "Message", cp "ClientSession", cp "connect_async"]
+    ++ (s.enums.map enumDecl).map (·.name) ++ (s.records.map (recDecl s)).map (·.name) ++ (s.messages.map (msgDecl s)).map (·.name)
+  enums := s.enums.map enumDecl
+  records := s.records.map (recDecl s)
+  messages := s.messages.map (msgDecl s)
+
+/-- the schema a well-formed specification denotes -/
+def specSchema (impl : Impl) (s : Spec) : Schema where
+  exports := [cp "Message", cp "ClientSession", cp "connect_async"]
+    ++ s.enums.map (·.name) ++ s.records.map (·.name) ++ s.messages.map (·.name)
+  enums := s.enums.map enumSem
+  records := s.records.map (recSem s)
+  messages := s.messages.map (msgSem impl s)
+
+theorem gen_eval_denote {impl : Impl} {s : Spec} (app : Str) (ovr : Bool) (hwf : wfSpec impl s = true) :
+    gen impl app ovr s = .ok (specModule impl app s)
+    ∧ evalModule (specModule impl app s) = .ok (specSchema impl s)
+    ∧ denote impl s = .ok (specSchema impl s) := by
+  have h := wfSpec_inv hwf
+  -- enums
+  obtain ⟨env1, he1, henv1⟩ := enums_ok h s.enums [] (initEnv impl) (fun _ hx => hx) (EnvOk.initial impl)
+  have henv1' : EnvOk impl (s.enums.map (·.name)) [] env1 :=
+    henv1.mono (fun n hn => by simpa using hn) (fun _ hn => hn)
+  -- records
+  obtain ⟨env2, hr1, henv2, hrf⟩ := records_ok h s.records [] env1 (fun _ hx => hx) (fun _ hn => by cases hn) henv1' h.recs
+  have henv2' : EnvOk impl (s.enums.map (·.name)) (s.records.map (·.name)) env2 :=
+    henv2.mono (fun _ hn => hn) (fun n hn => by simpa using hn)
+  -- messages
+  obtain ⟨hm1, hmf⟩ := messages_ok h s.messages [] env2 (fun _ hx => hx) henv2' h.reg
+  have hnames : (s.enums.map enumDecl).map (·.name) = s.enums.map (·.name) := by
+    rw [List.map_map]
+    apply List.map_congr_left
+    intro e he
+    exact (enum_facts h he).2.1
+  refine ⟨?_, ?_, ?_⟩
+  · -- the generator
+    have g1 : mapE (fun (kv : Str × EnumEl) => genEnum kv.2) (specDefinitions s).enums = .ok (s.enums.map enumDecl) := by
+      unfold specDefinitions
+      exact mapE_map_ok _ _ _ s.enums (fun e he => (enum_facts h he).1)
+    have g2 : mapE (genMessage (specDefinitions s)) (specDefinitions s).messages = .ok (s.messages.map (msgDecl s)) := by
+      show mapE (genMessage (specDefinitions s)) (s.messages.map (msgDef s)) = _
+      exact mapE_map_ok _ _ _ s.messages (fun g hg => (hmf g hg).1)
+    have g3 : mapE (fun (kv : Str × RecordDef) => genRecord (specDefinitions s) kv.2) (specDefinitions s).records
+        = .ok (s.records.map (recDecl s)) := by
+      show mapE _ (s.records.map fun r => (r.name, recDef s r)) = _
+      exact mapE_map_ok _ _ _ s.records (fun r hr => (hrf r hr).1)
+    unfold gen
+    rw [parse_wf ovr h]
+    simp only [ok_bind]
+    unfold genDefs
+    rw [g1]
+    simp only [ok_bind]
+    rw [g2]
+    simp only [ok_bind]
+    rw [g3]
+    rfl
+  · -- the import
+    have hsyn : (specModule impl app s).syntaxOk = true := by
+      simp only [Module.syntaxOk, specModule, Bool.and_eq_true, List.all_eq_true]
+      refine ⟨⟨?_, ?_⟩, ?_⟩
+      · intro d hd
+        obtain ⟨e, he, rfl⟩ := List.mem_map.mp hd
+        have := (enum_facts h he).2.2.2.1
+        simpa [Bool.and_eq_true, List.all_eq_true] using this
+      · intro d hd
+        obtain ⟨r, hr, rfl⟩ := List.mem_map.mp hd
+        have := (hrf r hr).2.1
+        simpa [Bool.and_eq_true, List.all_eq_true, recDecl] using this
+      · intro d hd
+        obtain ⟨g, hg, rfl⟩ := List.mem_map.mp hd
+        have := (hmf g hg).2.1
+        simpa [Bool.and_eq_true, List.all_eq_true, msgDecl] using this
+    unfold evalModule
+    rw [hsyn]
+    simp only [Bool.not_true, Bool.false_eq_true, if_false]
+    show (do
+      let (env1, enums) ← evalEnums (initEnv impl) (s.enums.map enumDecl)
+      let (env2, recs) ← evalRecords env1 (s.records.map (recDecl s))
+      let msgs ← evalMessages impl env2 [] (s.messages.map (msgDecl s))
+      pure (⟨(specModule impl app s).exports, enums, recs, msgs⟩ : Schema)) = _
+    rw [he1]
+    simp only [ok_bind]
+    rw [hr1]
+    simp only [ok_bind]
+    rw [hm1]
+    simp only [ok_bind, pure_eq_ok, specModule, specSchema, hnames]
+    congr 2
+    simp [List.map_map, Function.comp_def, recDecl, msgDecl]
+  · -- the reference semantics
+    have d1 : mapE denoteEnum s.enums = .ok (s.enums.map enumSem) :=
+      mapE_ok _ _ _ (fun e he => (enum_facts h he).2.2.2.2.2)
+    have d2 : mapE (fun (r : RecordEl) => do
+        let fs ← mapE (denoteField s) r.fields
+        pure (⟨r.name, fs⟩ : RecordS)) s.records = .ok (s.records.map (recSem s)) :=
+      mapE_ok _ _ _ (fun r hr => (hrf r hr).2.2)
+    have d3 : mapE (denoteMessage impl s) s.messages = .ok (s.messages.map (msgSem impl s)) :=
+      mapE_ok _ _ _ (fun g hg => (hmf g hg).2.2)
+    unfold denote
+    rw [d1]
+    simp only [ok_bind]
+    rw [d2]
+    simp only [ok_bind]
+    rw [d3]
+    rfl
 
 end NasdaqModel.GenSoupApp
